@@ -298,6 +298,17 @@ add("C20", "TLC on LinGauss.tla (exact posterior mean and covariance; signal-spa
     "and D.",
     TRUST + "in quick mode the VI drivers run on a quarter of the models.")
 
+add("C34", "TLC on EigBatches.tla (batch schedule of the resumable eigenvalue computation; exactness, suffix property, termination) and LinGauss.tla (ELBO closed forms) + trace validation of recorded eigensolver requests (EigBatchesTrace.tla) + replay of the ELBO configuration grid and of Lanczos",
+    "EigBatches.tla: for every (n, batches, precomputed) the missing eigenvalues are requested in non-empty batches, a run resumed after complete "
+    "batches continues the uninterrupted schedule, the run terminates. The real _eigsh is run for 126 (n, batches, precomputed) combinations on a "
+    "diagonal operator with scipy's eigsh wrapped from outside: the recorded requests (size, number of deflated eigenpairs) are validated against "
+    "the specification and the eigenvalues against the exact ones. LinGauss.tla gives |Dinv| and the exact sample averages of the Hamiltonian; "
+    "TLC checks H(posterior mean) = 1/2 d^T G^-1 d <= H(anywhere) (ELBO <= log-evidence, equality for the exact posterior) and |G| = |N||Dinv|. "
+    "The ELBO with all eigenvalues must equal 1/2 log|D| + dim/2 - H(sample) for every sample, for eager / compiled metric, signal / data space, "
+    "with the eigensystem saved and resumed from part of it, in nifty.re and nifty.cl. Lanczos with order = dimension reproduces spectrum, basis "
+    "and V A V^T = T, the quadrature is exact per probe, the stochastic log-determinant is exact for diagonal operators.",
+    TRUST + "the estimators below full order (stochastic error) are not covered.")
+
 
 def main():
     props = [json.loads(l) for l in open(os.path.join(HERE, "properties.jsonl"))]
